@@ -71,7 +71,9 @@ def check_model(R, name, make, rng, tier):
     except EXC:
         pass
     # memory_size / block sizes at transform time
-    for mem in ("1k", "10k", "2G"):
+    # "100" / "200" / "300" bytes: 1-4 rows per block for these reference sizes, so that transform really runs several blocks
+    # (with "1k" all 8 rows fit in one block: a block-relative addressing error stayed invisible - seeded change S-C08-d)
+    for mem in ("100", "200", "300", "1k", "10k", "2G"):
         try:
             est.memory_size = mem
             out = embed(est, W, vecs)
@@ -118,7 +120,7 @@ def check_formats_and_rank(R, rng):
 def run(tier, seed):
     R = Recorder("seeded collections of 8 distributions over 6 Gaussian vectors (generic: unique optimal plans) for WassersteinVectorizer {cosine, euclidean} x "
                  "{LOT_exact, LOT_sinkhorn}, SinkhornVectorizer; transform of re-encodings (row scale incl. 1e6 / 1e-3, zero-weight padding, permutation with vectors, "
-                 "splitting a point) vs the original, equal distributions, memory_size {1k, 10k, 2G}; sparse vs list input; full-rank distances vs raw LOT vectors. tol 1e-6. "
+                 "splitting a point) vs the original, equal distributions, memory_size {100, 200, 300 bytes = several blocks of 1-4 rows, 1k, 10k, 2G}; sparse vs list input; full-rank distances vs raw LOT vectors. tol 1e-6. "
                  "non-trivial = relation evaluated")
     reps = 2 if tier == "quick" else 12
     for r in range(reps):
